@@ -70,6 +70,46 @@ def run(ck, prog, ctx):
             b = prog.body(B + nm)
             ck.ob("KIND", "K3/" + nm, b is not None and b.reachable, "public Builder<ConnectedTerms>::%s exists" % nm if b is not None else "coverage-floor: Builder<ConnectedTerms>::%s is missing" % nm)
 
+    # ------------------------------------------------------------------ add_K never replaces an existing record (its direct terms would be lost)
+    for K, (stem, plural, rec) in sorted(KINDS.items()):
+        b = prog.body(B + "add_" + stem)
+        if b is None:
+            continue
+        stores = []
+        for fb in prog.family(b):
+            for bi, t in fb.calls():
+                c = t.callee
+                owner = (c.impl_self or "") + " " + (c.name or "")
+                if c.method == "insert" and "OccupiedEntry" in owner:
+                    stores.append((fb, t, "OccupiedEntry::insert", False))
+                elif c.method == "insert" and "VacantEntry" in owner:
+                    stores.append((fb, t, "VacantEntry::insert", True))
+                elif c.method in ("or_insert", "or_insert_with", "or_insert_with_key", "or_default") and "Entry" in owner:
+                    stores.append((fb, t, "Entry::" + c.method, True))
+                elif c.method == "insert" and "HashMap" in owner:
+                    stores.append((fb, t, "HashMap::insert", None))
+        if not stores:
+            ck.undecided("DOM", "add_%s/store" % stem, "no store into the record map recognised", where=b.where())
+        for i, (fb, t, how, ok) in enumerate(stores):
+            if ok is None:
+                # HashMap::insert replaces: it has to sit on the absent edge of a lookup of the same map
+                absent = []
+                tests = [(gbi, gt) for gbi, gt in fb.calls() if gt.callee.method in ("contains_key", "get", "get_mut") and "HashMap" in ((gt.callee.impl_self or "") + (gt.callee.name or ""))]
+                for gbi, gt in tests:
+                    pos = positive_edges(fb, pvn, gbi)
+                    neg = [(sb, y) for sb, _ in pos for y in fb.succ[sb] if (sb, y) not in pos]
+                    absent += neg
+                bb = next(bi for bi, tt in fb.calls() if tt is t)
+                guarded = any(fb.edge_dominates(e, bb) for e in absent)
+                if guarded:
+                    ck.ob("DOM", "add_%s/store/%d" % (stem, i), True, "add_%s stores the new %s record with HashMap::insert on the absent edge of a lookup" % (stem, K), where=fb.where(t.line))
+                elif tests:
+                    ck.undecided("DOM", "add_%s/store/%d" % (stem, i), "record stored with HashMap::insert next to a lookup whose polarity is not recognised", where=fb.where(t.line))
+                else:
+                    ck.ob("DOM", "add_%s/store/%d" % (stem, i), False, "add_%s stores the new %s record with an unconditional HashMap::insert: an EXISTING record is replaced and the terms it had collected are lost" % (stem, K), where=fb.where(t.line))
+            else:
+                ck.ob("DOM", "add_%s/store/%d" % (stem, i), ok, "add_%s stores the new %s record through %s%s" % (stem, K, how, "" if ok else ": an EXISTING record is replaced and the terms it had collected are lost while the terms keep their links"), where=fb.where(t.line))
+
     # ------------------------------------------------------------------ PAIR in annotate_K
     for K, (stem, plural, rec) in sorted(KINDS.items()):
         b = prog.body(B + "annotate_" + stem)
